@@ -16,7 +16,7 @@ from checks import fuzzgen as G
 
 LEAN_TARGETS = ["LyModel.Props.C05"]
 AUDIT = "Audit/C05.lean"
-GENERATED = ["Consts"]
+GENERATED = ["Consts", "LexConsts"]
 ASSUMPTIONS = [
     "the theorems are about the Lean buffer-program models; the models are tied to src/json.c, src/xml.c, src/ly_common.c by the white-box "
     "correspondence (wb_jsonnum, wb_text) on every run",
